@@ -145,7 +145,9 @@ def history(sig, sr, freqs, Q, stype, ic="zero", npad=0):
     sig : (N, H) raw base acceleration; freqs : (LF,) Hz (0 allowed except for ic='steady')
     returns hist (N + npad, H, LF) -- total window; slice [:N] primary, [N:] residual
     """
-    sig = np.atleast_2d(np.asarray(sig, float))
+    sig = np.asarray(sig, float)
+    if sig.ndim == 1:
+        sig = sig.reshape(-1, 1)
     N, H = sig.shape
     freqs = np.atleast_1d(np.asarray(freqs, float))
     LF = len(freqs)
@@ -162,7 +164,6 @@ def history(sig, sr, freqs, Q, stype, ic="zero", npad=0):
                 raise ValueError("steady state undefined for fn = 0")
             U = -s1 / (x * x)
             V = np.zeros(H)
-            start = 0
         else:
             # rest one step before the first sample, input ramps from 0 to zdd[0]
             f1 = -zdd[0]
